@@ -58,7 +58,7 @@ CODES = {
     1301: "IsCycleDetected wrong", 1302: "errors.As(RootCause, dig.Error) wrong", 1303: "RootCause is not the innermost error",
     1304: "CanVisualizeError wrong", 1305: "invoked function's error was wrapped", 1306: "error verdict without flags",
     1401: "dig panicked", 1402: "malformed input accepted", 1601: "verdict differs under reordering", 1602: "wiring differs under reordering",
-    1603: "length differs", 1701: "user function ran in a dry container", 1702: "dry verdict differs from normal all-ok verdict", 1703: "length differs",
+    1603: "length differs", 1604: "only a soft value group differs and an earlier Invoke had failed", 1605: "a soft value group differs although no earlier Invoke failed", 1701: "user function ran in a dry container", 1702: "dry verdict differs from normal all-ok verdict", 1703: "length differs",
     2001: "execution of a function with a callback not immediately followed by its callback", 2002: "callback error does not match outcome",
     2003: "callback Runtime is not the time spent in the body", 2004: "callback without a directly preceding execution",
 }
@@ -122,7 +122,7 @@ SPECS = {
              chk2="fun c t p => chk_C15 (cs_impl c) t",
              rule="non-trivial: at least one function's signature was rewritten (parameters wrapped into dig.In objects, results into dig.Out, variadic added, name/group moved to tags) and some Invoke executed it"),
     "C16": S(profiles=[("core-mix", 0.6), ("trees", 0.4)], projection="PExecSet", twin="permute",
-             chk2="fun c t p => chk_C16 p (cs_impl c) t",
+             chk2="fun c t p => chk_C16 (cs_hist c) p (cs_impl c) t",
              rule="non-trivial: the permuted twin differs from the original in the order of >=2 accepted registrations, a scope creation, or the defer option"),
     "C17": S(profiles=[("dry", 1.0)], projection="PVerdict", twin="undry",
              chk2="fun c t p => chk_C17_dry (cs_hist c) (cs_impl c) ++ chk_same_verdicts 0 (cs_impl c) t",
@@ -313,6 +313,11 @@ def make_cases(spec, prop, tier, seed, corpus):
     cases = list(corpus)
     for prof, frac in spec["profiles"]:
         cases += gen.generate(prof, seed, max(1, int(n * frac)))
+    if spec["twin"] == "permute":
+        # the claim is about accepted registrations and successful Invokes: user functions all succeed
+        for c in cases:
+            for f in c["fns"]:
+                f.pop("plan", None)
     cases, traces = common.run_impl_parallel(cases)
     twins = twins_for(spec, cases, traces, seed)
     dist = distribution(cases, traces)
